@@ -26,13 +26,17 @@ def run(rep):
         H("c15_stream_chain_k3", "try_for_each_item through filter_items+map_items", bound="K = 3 outcomes", timeout=1800),
         H("c15_insert_all_k3", "MutableGraph::insert_all: prefix, count of effective insertions, SourceError/SinkError", bound="K = 3 outcomes", timeout=1800),
         H("c15_remove_all_k3", "MutableGraph::remove_all: prefix, count of effective removals, SourceError/SinkError", bound="K = 3 outcomes", timeout=1800),
+        H("c15_dataset_insert_all_k3", "MutableDataset::insert_all: prefix, each quad in its own graph, count, SourceError/SinkError", bound="K = 3 outcomes", timeout=1800),
+        H("c15_dataset_remove_all_k3", "MutableDataset::remove_all: same", bound="K = 3 outcomes", timeout=1800),
+        H("c15_stream_batch_chain_k3", "a source handing several items per try_for_some_item call (statement-wise parser) through filter+map: prefix, no call after the consumer's failure, blame", bound="K = 3 outcomes, batch 1..3", timeout=1800),
+        H("c15_for_each_item_k3", "for_each_item / step-wise for_some_item with an infallible consumer: prefix before a source fault, error value", bound="K = 3 outcomes", timeout=1800),
     ]
     rio = [H(n, "step contract of %s against a stub Rio parser (0..2 statements, then Ok or its own error; consumer may fail on any item); "
                 "the stub returns after the two statements, so the harness loops are bounded by construction" % n, complete=True, timeout=1200)
            for n in ("c15_rio_triples_step", "c15_rio_quads_step", "c15_rio_generalized_step")]
     rep.functions += ["impl Source for I: Iterator::try_for_some_item, Source::try_for_each_item (api/src/source.rs)",
                       "FilterSource / MapSource / FilterMapSource::try_for_some_item (api/src/source/{filter,map,filter_map}.rs)",
-                      "MutableGraph::insert_all / remove_all (api/src/graph.rs), TripleSource::try_for_each_triple (api/src/source/_triple.rs)",
+                      "MutableGraph::insert_all / remove_all (api/src/graph.rs), MutableDataset::insert_all / remove_all (api/src/dataset.rs), Source::for_each_item / for_some_item, TripleSource::try_for_each_triple / QuadSource::try_for_each_quad",
                       "StrictRioTripleSource / StrictRioQuadSource / GeneralizedRioSource::try_for_some_item (rio/src/parser.rs)"]
     rep.assume("Kani/CBMC; harness error types ErrA/ErrB, symbolic predicate x&mask!=0 and map x^k stand for arbitrary pure closures over u8 items")
     rep.assume("Rio parsers stop at the first callback error and report their own errors through From (the stub does; real rio_turtle is not run)")
@@ -45,10 +49,16 @@ def run(rep):
     failed = []
     with overlay.Scratch(ID) as s:
         s.append("api/src/source.rs", text.replace("mod verif_c15 {", "pub(crate) mod verif_c15 {")
-                 + open(core.VERIF + "/contracts/source/kani_bulk.rs").read())
+                 + open(core.VERIF + "/contracts/source/kani_bulk.rs").read() + open(core.VERIF + "/contracts/source/kani_more.rs").read())
         s.append("rio/src/parser.rs", open(core.VERIF + "/contracts/source/kani_rio.rs").read())
         failed += kani_unit.run_harnesses(rep, s, "sophia_api", steps + streams, need_stubs=False, batch=True)
         failed += kani_unit.run_harnesses(rep, s, "sophia_rio", rio, need_stubs=False, batch=True)
+    # bounded stand-in for what CBMC cannot reach (VecDeque buffering of the IntoIterator adapters: out of memory at
+    # K = 3; real Turtle parser as a source): exhaustive native enumeration over a small domain, labelled as such
+    native.bounded_stand_in(rep, ID, "c15", [], "c15_enumerator",
+                            "all outcome sequences of length <= 4 over {end, Ok(1..3), Err}: 7 adapter chains x every sink fault position x step-wise/whole-stream; map/filter_map .into_iter() over batching sources (batch 1..3); batching source through filter+map; Turtle parser source with multi-triple statements and sink faults at every position",
+                            "sequences <= 4, batch <= 3", "MapSourceIterator::next / FilterMapSourceIterator::next (api/src/source/map.rs, filter_map.rs), sophia_turtle parser sources (rio_turtle underneath)",
+                            "./check C15 --replay <this file>")
     if failed:
         rc, out, err, secs = native.run_replay(ID, "c15", [])
         witness, confirmed = (out.strip().splitlines()[-1], True) if rc == 1 else (None, False)
@@ -56,7 +66,7 @@ def run(rep):
             rep.violation("kani:" + h.name, kani_unit.describe_failure(r), witness=witness,
                           replay_text="./check C15 --replay <this file>   # replay_src/c15: outcome sequences <= 4, 7 chains, all fault positions on the real sophia_api",
                           confirmed=confirmed)
-    rep.not_covered += ["the Triple/Quad wrapper sources (forwarding only)", "serializer sinks with a failing writer", "collect_triples / collect_quads",
+    rep.not_covered += ["the Triple/Quad wrapper sources (forwarding only)", "serializer sinks with a failing writer", "collect_triples / collect_quads", "IntoIterator forms of the adapters beyond the native bounded stand-in (CBMC out of memory on VecDeque)",
                         "streams longer than 3 items for the whole-stream drivers (the step contract is unbounded)"]
     rep.notes.append("the whole-stream property follows from the step contract by induction on the stream (lemma_prefix, Verus); bounded runs of the real loop drivers link the lemma's `drive` to the real `while try_for_some_item(..)? {}`")
 
